@@ -65,10 +65,14 @@ func installFileStubs(ft *fileTable) {
 	})
 }
 
-// newRepo: kind 0 = in-memory, 1 = file system (CSV layer stubbed symbolically, real temp dir natively).
+// newRepo: kind 0 = in-memory, 1 = file system (CSV layer stubbed symbolically, real temp dir natively),
+// 2 = SQL over the table model of c10_sql.go (database/sql stubbed symbolically, a minimal driver natively).
 func newRepo(kind int) asset.Repository {
 	if kind == 0 {
 		return asset.NewInMemoryRepository()
+	}
+	if kind == 2 {
+		return newSQLRepo()
 	}
 	ft := &fileTable{rows: map[string][]*asset.Snapshot{}}
 	installFileStubs(ft)
@@ -125,7 +129,11 @@ func H_C10(kind, steps, code, seed int) {
 			appendTo(name, []*asset.Snapshot{symSnap("a", s)}, s)
 		case 1:
 			c, err := repo.Get(name)
-			vrt.AssertAt("get_err_iff_unknown", s, (err != nil) == !known)
+			if kind == 2 && !known {
+				vrt.KnownFindingAt("KF-C10-sql-unknown-asset-no-error", "get_err_iff_unknown", s, err != nil)
+			} else {
+				vrt.AssertAt("get_err_iff_unknown", s, (err != nil) == !known)
+			}
 			if err == nil {
 				sameSnaps("get", s, Collect1(c), want)
 			}
@@ -133,7 +141,11 @@ func H_C10(kind, steps, code, seed int) {
 			b := vrt.Int("bound", s)
 			vrt.Assume(b >= 0 && b <= 9000)
 			c, err := repo.GetSince(name, vrt.Day(b))
-			vrt.AssertAt("getsince_err_iff_unknown", s, (err != nil) == !known)
+			if kind == 2 && !known {
+				vrt.KnownFindingAt("KF-C10-sql-unknown-asset-no-error", "getsince_err_iff_unknown", s, err != nil)
+			} else {
+				vrt.AssertAt("getsince_err_iff_unknown", s, (err != nil) == !known)
+			}
 			if err == nil {
 				var exp []*asset.Snapshot
 				for _, x := range want {
